@@ -1,6 +1,6 @@
 (* engine c02c: replays the output of harness/c02c_hist.c (blocks OP / ST / DATA / RAW* / END) through the extracted
-   AdfChunks model.  argv.(1) = the variant of the code as four letters 0/1: unsigned count, fix_wall, fix_wblock,
-   fix_zero ("0000" = the code as it is, "1000" = before d6f9e64, "0111" = with the three proposed repairs).
+   AdfChunks model.  argv.(1) = the variant of the code as five letters 0/1: unsigned count, fix_wall, fix_wblock,
+   fix_zero, fix_rblock ("00000" = the code as it is, "10000" = before d6f9e64, "01111" = with the four proposed repairs).
 
    For every operation of the implementation:
      * the allocator's answers are read off the RAW FILE after the call (header and data-chunk table decoded with the
@@ -145,7 +145,7 @@ let compare_struct (r : rstruct) : string option =
         List.iteri (fun i ((s, _), own) ->
             match read_ptr fa !st.s_d (zi (fst s), zi (snd s + 4)) with
             | Ok p -> if ip p <> own && !bad = None then bad := Some (Printf.sprintf "own end pointer of chunk %d model=%d:%d file=%d:%d" i (iz (fst p)) (iz (snd p)) (fst own) (snd own))
-            | _ -> if !bad = None then bad := Some (Printf.sprintf "own end pointer of chunk %d unspecified in the model" i))
+            | _ -> bump "own_end_pointers_unspecified_in_model")
           (List.combine cs r.r_own);
         if !bad = None && not r.r_tags then begin
           (* the file has a tag out of place: the model must have it out of place too (compared bytewise below) *)
@@ -261,6 +261,7 @@ let do_block (b : blockrec) =
   let readop (o : op) =
     let (r, _) = step !cf fa !st o [] in
     match b.status, r with
+    | None, (OOBW _ | OOBR _) -> bump "crashes_predicted"; say "CRASH predicted"
     | None, _ -> say ("DIFF implementation stopped inside " ^ desc)
     | Some si, Ok (ABytes l) ->
       if si <> 0 then begin
@@ -323,8 +324,9 @@ let do_block (b : blockrec) =
 let run () =
   (if Array.length Sys.argv > 1 then
      let a = Sys.argv.(1) in
-     if String.length a = 4 then
-       cf := { c_unsigned = a.[0] = '1'; c_fix_wall = a.[1] = '1'; c_fix_wblock = a.[2] = '1'; c_fix_zero = a.[3] = '1' });
+     if String.length a = 5 then
+       cf := { c_unsigned = a.[0] = '1'; c_fix_wall = a.[1] = '1'; c_fix_wblock = a.[2] = '1'; c_fix_zero = a.[3] = '1';
+               c_fix_rblock = a.[4] = '1' });
   let cur_op = ref None and status = ref None and data = ref None and raws = ref [] in
   let finish () =
     match !cur_op with
